@@ -289,3 +289,70 @@ func DependsOn(v ssa.Value, pred func(ssa.Value) bool) bool {
 	}
 	return walk(v, 0)
 }
+
+// SameExpr reports whether a and b denote the same value structurally: identical after
+// Canon, or loads of the same field path from the same root (the objects compared are
+// request messages and controller fields that are not reassigned between the two
+// reads; callers use it for guard matching, where a missed match fails closed).
+func SameExpr(a, b ssa.Value) bool {
+	return sameExpr(a, b, 0)
+}
+
+func sameExpr(a, b ssa.Value, d int) bool {
+	if d > 8 {
+		return false
+	}
+	ca, cb := Canon(a), Canon(b)
+	if ca == cb {
+		return true
+	}
+	if x, ok := ca.(*ssa.Convert); ok {
+		if y, ok := cb.(*ssa.Convert); ok && types.Identical(x.Type(), y.Type()) {
+			return sameExpr(x.X, y.X, d+1)
+		}
+	}
+	ra, oka := FieldLoadOf(ca)
+	rb, okb := FieldLoadOf(cb)
+	if oka && okb && ra.Struct == rb.Struct && ra.Field == rb.Field {
+		return sameExpr(ra.Base, rb.Base, d+1)
+	}
+	// getter calls on the same receiver: x.GetEntry() vs x.Entry
+	if ga, ok := getterOf(ca); ok {
+		if gb, ok := getterOf(cb); ok && ga.name == gb.name {
+			return sameExpr(ga.recv, gb.recv, d+1)
+		}
+		if okb && "Get"+rb.Field == ga.name {
+			return sameExpr(ga.recv, rb.Base, d+1)
+		}
+	}
+	if gb, ok := getterOf(cb); ok && oka && "Get"+ra.Field == gb.name {
+		return sameExpr(ra.Base, gb.recv, d+1)
+	}
+	if ca2, ok := ca.(*ssa.Const); ok {
+		if cb2, ok := cb.(*ssa.Const); ok && ca2.Value != nil && cb2.Value != nil {
+			return ca2.Value.ExactString() == cb2.Value.ExactString() && types.Identical(ca2.Type(), cb2.Type())
+		}
+	}
+	return false
+}
+
+type getter struct {
+	recv ssa.Value
+	name string
+}
+
+// getterOf recognises generated protobuf getters x.GetFoo().
+func getterOf(v ssa.Value) (getter, bool) {
+	c, ok := v.(*ssa.Call)
+	if !ok {
+		return getter{}, false
+	}
+	f := c.Call.StaticCallee()
+	if f == nil || f.Signature.Recv() == nil || len(c.Call.Args) != 1 || !strings.HasPrefix(f.Name(), "Get") {
+		return getter{}, false
+	}
+	if PkgPathOf(f) != Module+"/proto" {
+		return getter{}, false
+	}
+	return getter{c.Call.Args[0], f.Name()}, true
+}
